@@ -409,7 +409,7 @@ class Circuit(object):
         # print "Circuit.update:",args
         if self.id is None:
             self.id = int(args[0])
-            for x in self.listeners:
+            for x in list(self.listeners):
                 x.circuit_new(self)
 
         else:
@@ -426,7 +426,7 @@ class Circuit(object):
 
         if self.state == 'LAUNCHED':
             self.path = []
-            for x in self.listeners:
+            for x in list(self.listeners):
                 x.circuit_launched(self)
         else:
             if self.state != 'FAILED' and self.state != 'CLOSED':
@@ -434,7 +434,7 @@ class Circuit(object):
                     self.update_path(args[2].split(','))
 
         if self.state == 'BUILT':
-            for x in self.listeners:
+            for x in list(self.listeners):
                 x.circuit_built(self)
             self._when_built.fire(self)
 
@@ -454,7 +454,7 @@ class Circuit(object):
                 )
             flags = self._create_flags(kw)
             self.maybe_call_closing_deferred()
-            for x in self.listeners:
+            for x in list(self.listeners):
                 x.circuit_closed(self, **flags)
 
         elif self.state == 'FAILED':
@@ -463,7 +463,7 @@ class Circuit(object):
                                      (self.state, len(self.streams))))
             flags = self._create_flags(kw)
             self.maybe_call_closing_deferred()
-            for x in self.listeners:
+            for x in list(self.listeners):
                 x.circuit_failed(self, **flags)
 
     def maybe_call_closing_deferred(self):
@@ -505,7 +505,7 @@ class Circuit(object):
             self.path.append(router)
             # if the path grew, notify listeners
             if len(self.path) > oldpath_len:
-                for x in self.listeners:
+                for x in list(self.listeners):
                     x.circuit_extend(self, router)
                 oldpath_len = len(self.path)
 
